@@ -36,3 +36,6 @@ func (lb *LoadBalancer) VerifProbeOnce(b *Backend) {
 	vgate("probe:exchange")
 	lb.processHealthCheckResponse(b, &http.Response{StatusCode: http.StatusOK, Body: http.NoBody})
 }
+
+// VerifJumpHash exposes the integer jump-hash step for the exhaustive sweep (C06).
+func VerifJumpHash(key uint64, n int32) int32 { return jumpHash(key, n) }
